@@ -18,6 +18,7 @@ type BCase struct {
 	ID       string
 	Cfg      *Cfg
 	Files    []File // optional: explicit input files (otherwise Cfg.YAML() in one file)
+	Patterns []string // optional: the -i patterns (otherwise one -i per file, in the order of Files)
 	Local    bool
 	Sessions []BSession
 	Flags    []string
@@ -63,7 +64,12 @@ func (w *W) RunBehaviour(cases []*BCase) ([]*BOutcome, error) {
 			files = []File{{"c.yaml", bc.Cfg.YAML()}}
 			bc.Files = files
 		}
-		br := w.Build(files, bc.Flags...)
+		var br BuildResult
+		if bc.Patterns != nil {
+			br = w.BuildPatterns(files, bc.Patterns, bc.Flags...)
+		} else {
+			br = w.Build(files, bc.Flags...)
+		}
 		outs[i] = &BOutcome{Case: bc, Build: br}
 		if br.Exit != 0 || br.Panic != "" || !br.OutExists {
 			continue
